@@ -178,9 +178,11 @@ theorem registration_sections_independent (cfg : Cfg) {c d : Nat} (h : d ≠ c) 
 /-- The same for one-section commands is the Rust fact "each connection task owns its `ConnState`
     exclusively".  In the model it is FALSE for arbitrary worlds (the ghost field `killedBy`
     of the victim's record is written by KILL / DIE through `User.owner`); it is expected to hold
-    where no user is owned by `c` (which `Inv` gives for an unauthenticated `c`).  NOT proved
-    (it needs a frame lemma for each of the 41 handlers); the theorems of section 4 take
-    `SecIndep` of the foreign sections as a hypothesis instead. -/
+    where no user is owned by `c` (which `Inv` gives for an unauthenticated `c`).  Proved in
+    `Irc/Props/C18Frame.lean` (`whole_sections_independent_full_holds`, with a frame lemma for each of
+    the 41 handlers; the ownership hypothesis is needed only for KILL / DIE / SQUIT lines, and
+    `whole_section_secIndep` discharges the `SecIndep` hypothesis that the theorems of section 4 take
+    for the foreign sections). -/
 def whole_sections_independent_full : Prop :=
   ∀ (cfg : Cfg) (c d : Nat) (line : Str) (x : Ctx) (cn : Conn), d ≠ c → cn.id = c →
     (∀ n u, Map.lookup n x.w.users = some u → u.owner ≠ c) →
